@@ -114,6 +114,24 @@ def one_step(iface, cls_name, target, x0, e, **kw):
     return np.array(r.samples[:, 1], float), s
 
 
+def two_steps(iface, cls_name, target, x0, e1, e2, **kw):
+    """Two consecutive transitions of ONE sampler object (non-initial state): returns (x1, x2)."""
+    import cuqi
+    st = Stream(normal=[e1, e2])
+    if iface == "exp":
+        s = getattr(cuqi.experimental.mcmc, cls_name)(target, initial_point=np.array(x0, float), maxit=MAXIT, tol=TOL, **kw)
+        s.initialize()
+        with st.installed():
+            s.step()
+            x1 = np.array(s.current_point, float)
+            s.step()
+        return x1, np.array(s.current_point, float)
+    s = getattr(cuqi.sampler, cls_name)(target, x0=np.array(x0, float), maxit=MAXIT, tol=TOL, **kw)
+    with st.installed():
+        r = s.sample(3)
+    return np.array(r.samples[:, 1], float), np.array(r.samples[:, 2], float)
+
+
 def noise_dim(iface, cls_name, target, n, **kw):
     """Size of the standard-normal request of one step (read from a dry run with a recording stream)."""
     import cuqi
@@ -325,4 +343,29 @@ def eval_ugla(cell):
                      "draw does not match; offset %s vs %s)" % (what, z0, mu), focus=focus)
         if res.sample is None:
             res.sample = {"x_k": x0, "offset": z0, "TTt": T @ T.T}
+    # ---- the SECOND transition of one sampler object is a draw from the local Gaussian at the state after the first
+    x0 = refs.dyadic_vec(n, k + 4, scale=0.5)
+    e1 = refs.dyadic_vec(nd, k + 2, scale=0.5)
+    try:
+        x1, _ = two_steps(iface, "UGLA", target, x0, e1, np.zeros(nd), beta=beta)
+        z0, T, aff = affine_probe(lambda e: two_steps(iface, "UGLA", target, x0, e1, e, beta=beta)[1], nd)
+    except Exception as e:
+        res.fail("C06|%s|second-step-raises|%s" % (comp, facet), "second transition raised %r" % (e,))
+        return res
+    res.transitions += 2 * (nd + 3)
+    res.traces += 1
+    res.evaluations += 1
+    res.state("second-step")
+    ok = False
+    for z in (D @ x1, D @ (x1 - loc)):
+        W = np.diag(1.0 / np.sqrt(z ** 2 + beta))
+        H = A.T @ L @ A + (1.0 / b) * D.T @ W @ D
+        cov = np.linalg.inv(H)
+        mu = cov @ (A.T @ L @ d + (1.0 / b) * D.T @ W @ D @ loc)
+        ok = ok or (aff and close(z0, mu, 1e-6) and close(T @ T.T, cov, 1e-6))
+    res.outcomes.add("second-step:%s:%s" % (facet, ok))
+    if not ok:
+        res.fail("C06|%s|second-step|%s" % (comp, facet), "the second transition of the same sampler object is not a draw from the "
+                 "documented local Gaussian at the state reached by the first transition (offset %s)" % (z0,),
+                 focus={"x0": x0, "x1": x1})
     return res
